@@ -2532,6 +2532,26 @@ impl XmlElement {
         removed.into_iter().next()
     }
 
+    /// Removes the attribute with this qualified name (prefix and local name).
+    pub fn remove_attribute_qname(
+        &mut self,
+        prefix: Option<&str>,
+        local_name: &str,
+    ) -> Option<Rc<XmlItem>> {
+        let (removed, kept): (Vec<Rc<XmlItem>>, Vec<Rc<XmlItem>>) =
+            self.attributes.drain(..).partition(|v| {
+                let attr = v.as_attribute().unwrap();
+                let attr = attr.borrow();
+                attr.prefix() == prefix && attr.local_name() == local_name
+            });
+        self.attributes = kept;
+        for v in removed.as_slice() {
+            v.set_parent_id(None);
+        }
+        self.context().invalidate_order();
+        removed.into_iter().next()
+    }
+
     pub fn set_local_name(&mut self, local_name: &str) {
         self.local_name = local_name.to_string();
     }
